@@ -2,6 +2,7 @@ package formatter
 
 import (
 	"strings"
+	"unicode"
 	"unicode/utf8"
 
 	"go.lsp.dev/protocol"
@@ -375,23 +376,42 @@ func formatPostingWithOpts(posting *ast.Posting, alignment AlignmentInfo, commod
 
 func writeAmountWithSign(sb *strings.Builder, amount *ast.Amount, commodityFormats map[string]NumberFormat) {
 	qty := formatAmountQuantity(amount, commodityFormats)
+	symbol := commodityText(amount.Commodity.Symbol)
 
 	if amount.Commodity.Position == ast.CommodityLeft {
+		// a quoted commodity needs a blank before the number ("ACME Inc." 5)
+		gap := ""
+		if symbol != amount.Commodity.Symbol {
+			gap = " "
+		}
 		if amount.SignBeforeCommodity && len(qty) > 0 && (qty[0] == '-' || qty[0] == '+') {
 			sb.WriteByte(qty[0])
-			sb.WriteString(amount.Commodity.Symbol)
+			sb.WriteString(symbol)
+			sb.WriteString(gap)
 			sb.WriteString(qty[1:])
 		} else {
-			sb.WriteString(amount.Commodity.Symbol)
+			sb.WriteString(symbol)
+			sb.WriteString(gap)
 			sb.WriteString(qty)
 		}
 	} else {
 		sb.WriteString(qty)
 		if amount.Commodity.Symbol != "" {
 			sb.WriteString(" ")
-			sb.WriteString(amount.Commodity.Symbol)
+			sb.WriteString(symbol)
 		}
 	}
+}
+
+// commodityText returns the symbol as it has to be written in a journal: a
+// symbol containing anything but letters and currency signs must be quoted.
+func commodityText(symbol string) string {
+	for _, r := range symbol {
+		if !unicode.IsLetter(r) && !unicode.Is(unicode.Sc, r) {
+			return `"` + symbol + `"`
+		}
+	}
+	return symbol
 }
 
 // keepWrittenPrecision widens a display format so that it shows every decimal
